@@ -105,6 +105,27 @@ pub struct Case {
     /// serve the RSA chain (first server flight larger than 3 x 1200 bytes)
     #[serde(default)]
     pub big_cert: bool,
+    /// operations parked on the connection when it closes or fails (C17)
+    #[serde(default)]
+    pub hangers: Vec<Hanger>,
+}
+
+#[derive(Clone, Copy, Debug, Serialize, Deserialize, PartialEq)]
+pub enum HangKind {
+    AcceptBi,
+    AcceptUni,
+    DgramRecv,
+    Handshaked,
+    Terminated,
+    /// open streams until the peer's limit blocks
+    OpenBiUntilBlocked,
+    OpenUniUntilBlocked,
+}
+
+#[derive(Clone, Copy, Debug, Serialize, Deserialize, PartialEq)]
+pub struct Hanger {
+    pub side: Side,
+    pub kind: HangKind,
 }
 
 #[derive(Clone, Copy, Debug, PartialEq)]
@@ -112,6 +133,9 @@ pub enum Mode {
     C02,
     C06,
     C15,
+    C17,
+    C19,
+    C20,
 }
 
 impl Mode {
@@ -121,12 +145,20 @@ impl Mode {
             Mode::C02 => &["no-panic", "read-implies-written", "eof-only-at-final-size", "write-accounting", "unexpected-conn-error", "liveness-handshake", "liveness-transfer", "bounded-failure", "no-progress", "tampered-not-accepted", "no-duplicate-pn-accepted"],
             Mode::C06 => &["no-panic", "roundtrip-frames", "corrupt-accepted", "replay-accepted", "liveness-handshake", "liveness-transfer", "unexpected-conn-error"],
             Mode::C15 => &["no-panic", "over-3x", "resume"],
+            Mode::C17 => &["no-panic", "pending-not-released", "ok-after-close", "error-changed", "state-regressed", "data-after-close", "idle-early", "idle-late", "idle-disabled-fired", "close-not-terminated"],
+            Mode::C20 => &["no-panic", "observational", "schema", "roundtrip"],
+            Mode::C19 => &["no-panic", "refusal", "frame-count", "payload", "order", "oversize-accepted", "not-on-wire", "unexpected-conn-error"],
         }
     }
 }
 
 pub struct NetSim {
     pub mode: Mode,
+}
+
+thread_local! {
+    /// (wire hash, application trace hash) of the last execution on this thread
+    pub static LAST_HASHES: std::cell::Cell<(u64, u64)> = const { std::cell::Cell::new((0, 0)) };
 }
 
 static INIT: Once = Once::new();
@@ -326,6 +358,9 @@ impl Engine for NetSim {
             Mode::C02 => "netsim",
             Mode::C06 => "netsim-sweep",
             Mode::C15 => "netsim-amplification",
+            Mode::C17 => "netsim-close",
+            Mode::C19 => "netsim-datagram",
+            Mode::C20 => "netsim-qlog-differential",
         }
     }
     fn fresh_thread(&self) -> bool {
@@ -349,7 +384,9 @@ impl Engine for NetSim {
         let mut r = Rng::derive(seed, "cfg");
         let profile = match self.mode {
             Mode::C02 => if r.one_in(4) { Profile::Unbounded } else { Profile::Bounded },
-            Mode::C06 | Mode::C15 => Profile::Bounded,
+            Mode::C06 | Mode::C15 | Mode::C19 => Profile::Bounded,
+            Mode::C20 => if r.one_in(4) { Profile::Unbounded } else { Profile::Bounded },
+            Mode::C17 => if r.one_in(5) { Profile::Unbounded } else { Profile::Bounded },
         };
         let mut w = Rng::derive(seed, "workload");
         let big = w.one_in(4);
@@ -381,8 +418,99 @@ impl Engine for NetSim {
         let mut f = Rng::derive(seed, "faults");
         let mut tape = gen_tape(&mut f, profile, false);
         let mut big_cert = false;
+        let mut close = CloseKind::AfterWorkload;
+        let mut hangers = Vec::new();
+        let mut dgrams = Vec::new();
+        let mut client = client;
+        let mut server = server;
         match self.mode {
             Mode::C02 => {}
+            Mode::C20 => {
+                // lifetimes with handshake, transfer, loss, close at a drawn time or idle expiry, path loss
+                close = match f.below(4) {
+                    0 => CloseKind::At { who: if f.one_in(2) { Side::Client } else { Side::Server }, at_ms: f.below(3_000) as u32 },
+                    1 => CloseKind::Idle,
+                    _ => CloseKind::AfterWorkload,
+                };
+                if close == CloseKind::Idle {
+                    client.idle_ms = *f.pick(&[1_000u32, 5_000]);
+                }
+            }
+            Mode::C17 => {
+                // idle timeouts drawn small so that idle expiry is reachable; 0 = disabled
+                let idle = [0u32, 1_000, 5_000, 30_000];
+                client.idle_ms = *f.pick(&idle);
+                server.idle_ms = *f.pick(&idle);
+                if profile == Profile::Unbounded {
+                    // path loss: everything from a drawn ordinal on is dropped, in one or both directions
+                    tape = Tape::default();
+                    let at = f.below(80) as u32;
+                    match f.below(3) {
+                        0 => tape.blackhole_from = [Some(at), Some(at)],
+                        1 => tape.blackhole_from[0] = Some(at),
+                        _ => tape.blackhole_from[1] = Some(at),
+                    }
+                    if client.idle_ms == 0 && server.idle_ms == 0 {
+                        client.idle_ms = 5_000;
+                    }
+                } else if f.one_in(2) {
+                    tape = Tape::default();
+                }
+                let at = match f.below(6) {
+                    0 => 0,
+                    1 => f.below(50) as u32,
+                    2 => f.below(400) as u32,
+                    3 => f.below(2_000) as u32,
+                    _ => f.below(10_000) as u32,
+                };
+                close = match f.below(10) {
+                    0..=3 => CloseKind::At { who: if f.one_in(2) { Side::Client } else { Side::Server }, at_ms: at },
+                    4..=5 => CloseKind::Both { at_ms: at },
+                    6..=7 => CloseKind::Idle,
+                    _ => CloseKind::AfterWorkload,
+                };
+                if profile == Profile::Unbounded {
+                    close = CloseKind::Idle;
+                }
+                let kinds = [HangKind::AcceptBi, HangKind::AcceptUni, HangKind::DgramRecv, HangKind::Handshaked, HangKind::Terminated, HangKind::OpenBiUntilBlocked, HangKind::OpenUniUntilBlocked];
+                for side in [Side::Client, Side::Server] {
+                    for k in kinds {
+                        if f.one_in(2) {
+                            hangers.push(Hanger { side, kind: k });
+                        }
+                    }
+                }
+                client.max_datagram = *f.pick(&[0u32, 1200]);
+                server.max_datagram = *f.pick(&[0u32, 1200]);
+            }
+            Mode::C19 => {
+                client.max_datagram = *f.pick(&[0u32, 1, 2, 100, 1200, 65535]);
+                server.max_datagram = *f.pick(&[0u32, 1, 2, 100, 1200, 65535]);
+                let loss_free = f.one_in(2);
+                if loss_free {
+                    tape = Tape::default();
+                }
+                for side in [Side::Client, Side::Server] {
+                    if f.one_in(4) {
+                        continue;
+                    }
+                    let peer_max = if side == Side::Client { server.max_datagram } else { client.max_datagram };
+                    let n = f.range(1, 12);
+                    let sizes = (0..n)
+                        .map(|_| match f.below(6) {
+                            0 => 0,
+                            1 => peer_max.saturating_sub(1).min(1300),
+                            2 => peer_max.min(1300),
+                            3 => (peer_max + 1).min(1300),
+                            4 => f.below(1300) as u32,
+                            _ => f.below(200) as u32,
+                        })
+                        .collect();
+                    dgrams.push(DgramSpec { side, sizes, gap_ms: *f.pick(&[0u32, 1, 20, 300]) });
+                }
+                // leave the datagrams time to travel before anybody closes
+                close = CloseKind::At { who: Side::Client, at_ms: 12_000 };
+            }
             Mode::C06 => {
                 // 1..3 sweeps on drawn in-flight datagrams: early ordinals hit Initial / Handshake / coalesced
                 // datagrams, later ones 1-RTT packets of whatever pn length the encoder picked
@@ -417,17 +545,18 @@ impl Engine for NetSim {
             client,
             server,
             streams,
-            dgrams: vec![],
-            close: CloseKind::AfterWorkload,
-            qlog: if self.mode != Mode::C02 || std::env::var("NETSIM_FORCE_CAPTURE").is_ok() { QlogMode::Capture } else { QlogMode::Noop },
+            dgrams,
+            close,
+            qlog: if !matches!(self.mode, Mode::C02 | Mode::C19) || std::env::var("NETSIM_FORCE_CAPTURE").is_ok() { QlogMode::Capture } else { QlogMode::Noop },
             cap_ms: 300_000,
             big_cert,
+            hangers,
         }
     }
 
     fn execute(&self, case: &Case) -> Outcome {
         process_init();
-        let mut out = run_case(case, self.mode);
+        let mut out = if self.mode == Mode::C20 { run_differential(case) } else { run_case(case, self.mode) };
         let clauses = self.mode.clauses();
         if std::env::var("NETSIM_ALL_CLAUSES").is_err() {
             out.violations.retain(|v| clauses.contains(&v.clause.as_str()));
@@ -527,6 +656,10 @@ pub struct RunLog {
     pub handshaked_at: [Option<u64>; 2],
     pub terminated_at: [Option<(u64, String)>; 2],
     pub term_detail: [String; 2],
+    pub close_called_at: [Option<u64>; 2],
+    /// (side, index, len, time)
+    pub dgram_sent: Vec<(Side, u32, u32, u64)>,
+    pub dgram_rcvd: Vec<(Side, u32, u32, u64)>,
 }
 
 pub type Log = Arc<Mutex<RunLog>>;
@@ -555,6 +688,45 @@ pub fn run_case(case: &Case, _mode: Mode) -> Outcome {
     }
     drop(rt);
     out
+}
+
+/// C20 oracle A: the same seeded case under every exporter configuration must behave identically.
+pub fn run_differential(case: &Case) -> Outcome {
+    let modes = [QlogMode::Noop, QlogMode::DiscardAll, QlogMode::Capture, QlogMode::CaptureRaw, QlogMode::Filtered, QlogMode::Legacy];
+    let mut base: Option<(u64, u64)> = None;
+    let mut merged = Outcome::default();
+    for m in modes {
+        let mut c = case.clone();
+        c.qlog = m;
+        simcore::entropy::seed_thread_entropy(case.seed);
+        let out = run_case(&c, Mode::C20);
+        let (wire, app) = LAST_HASHES.with(|h| h.get());
+        if let Some(e) = out.harness_error {
+            merged.harness_error = Some(e);
+            return merged;
+        }
+        for v in out.violations {
+            merged.violate(&v.clause, v.site, v.detail, v.at);
+        }
+        merged.stats.merge(&out.stats);
+        merged.sim_seconds += out.sim_seconds;
+        match base {
+            None => {
+                base = Some((wire, app));
+                merged.trace_hash = out.trace_hash;
+                merged.nontrivial = out.nontrivial;
+            }
+            Some((w0, a0)) => {
+                // the legacy logger spawns its own writer task per connection: only the application trace
+                // is compared for it (DESIGN C20)
+                let same = if m == QlogMode::Legacy { a0 == app } else { w0 == wire && a0 == app };
+                if !same {
+                    merged.violate("observational", format!("{m:?}"), format!("exporter configuration {m:?} changed the behaviour of the run: wire {w0:016x}->{wire:016x}, application {a0:016x}->{app:016x}"), 0);
+                }
+            }
+        }
+    }
+    merged
 }
 
 pub fn hash_wire(net: &net::SimNet, th: &mut TraceHash) {
